@@ -61,7 +61,26 @@ func (d Matches) Less(i, j int) bool {
 		return di.StartTokenIndex < dj.StartTokenIndex
 	}
 	// Should never get here, but tiebreak based on the larger license.
-	return di.EndTokenIndex > dj.EndTokenIndex
+	if di.EndTokenIndex != dj.EndTokenIndex {
+		return di.EndTokenIndex > dj.EndTokenIndex
+	}
+	// Matches covering the same tokens with the same confidence (corpus
+	// documents with identical text, or several Copyright notices) are ordered
+	// by the remaining fields, so that the order is total and the result does
+	// not depend on map iteration order or on the sort being unstable.
+	if di.StartLine != dj.StartLine {
+		return di.StartLine < dj.StartLine
+	}
+	if di.EndLine != dj.EndLine {
+		return di.EndLine < dj.EndLine
+	}
+	if di.MatchType != dj.MatchType {
+		return di.MatchType < dj.MatchType
+	}
+	if di.Name != dj.Name {
+		return di.Name < dj.Name
+	}
+	return di.Variant < dj.Variant
 }
 
 // Match reports instances of the supplied content in the corpus.
